@@ -47,17 +47,20 @@ package webserver
 //@   props C18 C17
 //@   requires nonnil: w != nil && r != nil
 //@   modifies ghostint("status", w), icall("http.ResponseWriter.Header", w)[*]
+//@   -- (the header value examined is the comma-joined list of ALL lines of that name - a request may split a list over several lines, RFC 7230
+//@   --  3.2.2; only the first line used to be read, so a PUT with If-None-Match: "x" on one line and * on the next overwrote an existing
+//@   --  object: repaired)
 //@   -- C18: If-Match fails unless the tag is current (an absent object never matches): 412
-//@   ensures if-match: call("(net/http.Header).Get", old(r.Header), "If-Match") != "" && !etagMatch(etag, call("(net/http.Header).Get", old(r.Header), "If-Match")) ==>
+//@   ensures if-match: call("strings.Join", call("(net/http.Header).Values", old(r.Header), "If-Match"), ", ") != "" && !etagMatch(etag, call("strings.Join", call("(net/http.Header).Values", old(r.Header), "If-Match"), ", ")) ==>
 //@        result && ghostint("status", w) == 412
 //@   -- C18: If-None-Match that matches: 304 for reads, 412 for writes
-//@   ensures if-none-match: !(call("(net/http.Header).Get", old(r.Header), "If-Match") != "" && !etagMatch(etag, call("(net/http.Header).Get", old(r.Header), "If-Match")))
-//@        && call("(net/http.Header).Get", old(r.Header), "If-None-Match") != "" && etagMatch(etag, call("(net/http.Header).Get", old(r.Header), "If-None-Match")) ==>
+//@   ensures if-none-match: !(call("strings.Join", call("(net/http.Header).Values", old(r.Header), "If-Match"), ", ") != "" && !etagMatch(etag, call("strings.Join", call("(net/http.Header).Values", old(r.Header), "If-Match"), ", ")))
+//@        && call("strings.Join", call("(net/http.Header).Values", old(r.Header), "If-None-Match"), ", ") != "" && etagMatch(etag, call("strings.Join", call("(net/http.Header).Values", old(r.Header), "If-None-Match"), ", ")) ==>
 //@        result && ghostint("status", w) == ((old(r.Method) == "GET" || old(r.Method) == "HEAD") ? 304 : 412)
 //@   -- C18: otherwise the request goes through and nothing is sent
 //@   ensures pass: !result ==> ghostint("status", w) == old(ghostint("status", w))
-//@        && !(call("(net/http.Header).Get", old(r.Header), "If-Match") != "" && !etagMatch(etag, call("(net/http.Header).Get", old(r.Header), "If-Match")))
-//@        && !(call("(net/http.Header).Get", old(r.Header), "If-None-Match") != "" && etagMatch(etag, call("(net/http.Header).Get", old(r.Header), "If-None-Match")))
+//@        && !(call("strings.Join", call("(net/http.Header).Values", old(r.Header), "If-Match"), ", ") != "" && !etagMatch(etag, call("strings.Join", call("(net/http.Header).Values", old(r.Header), "If-Match"), ", ")))
+//@        && !(call("strings.Join", call("(net/http.Header).Values", old(r.Header), "If-None-Match"), ", ") != "" && etagMatch(etag, call("strings.Join", call("(net/http.Header).Values", old(r.Header), "If-None-Match"), ", ")))
 //@
 //@ -- ------------------------------------------------------------------ administrative API (C17, C12)
 //@ func parseGroupName
